@@ -473,12 +473,18 @@ class JordanCurve:
             assert 0 <= node
             assert node <= 1
         assert len(indexs) == len(nodes)
-        # Clean boundary nodes, when node = 0 or 1
+        # Clean boundary nodes, when node = 0 or 1, and repeated nodes
         pairs = sorted(zip(indexs, nodes))
         i = 0
         while i < len(pairs):
-            node = pairs[i][1]
+            index, node = pairs[i]
             if abs(node) < 1e-6 or abs(node - 1) < 1e-6:
+                pairs.pop(i)
+            elif (
+                i > 0
+                and pairs[i - 1][0] == index
+                and abs(node - pairs[i - 1][1]) < 1e-6
+            ):
                 pairs.pop(i)
             else:
                 i += 1
